@@ -106,6 +106,8 @@ func C16(p *load.Prog, r *oblig.Run) {
 	r.Rule("R16.a", "each operator's function performs the comparison its name spells, numerically and on trimmed lower-cased text, with operands in order", 6)
 	r.Rule("R16.b", "an operator whose tokens extend another operator's tokens is listed first", 2)
 	r.Rule("R16.c", "documented function names are registered with their own expression types; calls forward the call's own arguments", 9)
+	r.Rule("R16.d", "results built by appending are built on a slice the expression made itself (appending to a received slice can write into the caller's backing array)", 4)
+	c16FreshAppend(p, r)
 	ops, err := extractOperators(p)
 	if err != nil {
 		r.Add("R16.a", "Operators table", "-", "operator registry").Unknown(err.Error())
@@ -482,5 +484,89 @@ func c16Functions(p *load.Prog, r *oblig.Run) {
 		o.OK("e.Function.Evaluate(engine, input, e.Args)")
 	} else {
 		o.Fail("CallExpr does not evaluate its function with the engine, the current input and the call's own arguments: a function call receives the wrong arguments (" + strings.TrimSpace("e.g. the caller's") + ")")
+	}
+}
+
+// c16FreshAppend (R16.d): every reflect.Append / reflect.AppendSlice in package q
+// appends to a value that comes from reflect.MakeSlice (or from an earlier
+// append on such a value).
+func c16FreshAppend(p *load.Prog, r *oblig.Run) {
+	isReflect := func(c *ssa.CallCommon, names ...string) bool {
+		cal := c.StaticCallee()
+		if cal == nil || cal.Pkg == nil || cal.Pkg.Pkg.Path() != "reflect" {
+			return false
+		}
+		for _, n := range names {
+			if cal.Name() == n {
+				return true
+			}
+		}
+		return false
+	}
+	ord := map[string]int{}
+	for _, fn := range p.Repo {
+		if fn.Pkg == nil && fn.Parent() == nil {
+			continue
+		}
+		if pkgPathOf(fn) != load.PkgQ {
+			continue
+		}
+		for _, c := range su.Calls(fn) {
+			cc := c.Common()
+			if !isReflect(cc, "Append", "AppendSlice") || len(cc.Args) < 1 {
+				continue
+			}
+			key := "append in " + load.FuncName(fn)
+			ord[key]++
+			if ord[key] > 1 {
+				key = fmt.Sprintf("%s #%d", key, ord[key])
+			}
+			o := r.Add("R16.d", key, p.Pos(c.Pos()), "destination of a reflect append")
+			seen := map[ssa.Value]bool{}
+			bad := ""
+			var walk func(v ssa.Value, d int)
+			walk = func(v ssa.Value, d int) {
+				if seen[v] || bad != "" {
+					return
+				}
+				seen[v] = true
+				if d > 20 {
+					bad = "derivation too deep"
+					return
+				}
+				switch x := v.(type) {
+				case *ssa.Phi:
+					for _, e := range x.Edges {
+						walk(e, d+1)
+					}
+				case *ssa.Call:
+					if isReflect(&x.Call, "MakeSlice", "Append", "AppendSlice") {
+						if isReflect(&x.Call, "Append", "AppendSlice") {
+							walk(x.Call.Args[0], d+1)
+						}
+						return
+					}
+					bad = "the result of " + x.Call.String()
+				case *ssa.UnOp:
+					if al, ok := x.X.(*ssa.Alloc); ok && x.Op == token.MUL {
+						for _, ref := range *al.Referrers() {
+							if st, ok := ref.(*ssa.Store); ok && st.Addr == ssa.Value(al) {
+								walk(st.Val, d+1)
+							}
+						}
+						return
+					}
+					bad = "a value loaded from " + x.X.String()
+				default:
+					bad = fmt.Sprintf("%s (%T)", v.String(), v)
+				}
+			}
+			walk(cc.Args[0], 0)
+			if bad == "" {
+				o.OK("appends to a slice made by reflect.MakeSlice in the same function")
+			} else {
+				o.Fail("the destination of the append is not a slice the expression made itself but " + bad + ": when that slice has spare capacity the append writes into the backing array it shares with the value it came from (another result, or the document)")
+			}
+		}
 	}
 }
